@@ -14,6 +14,32 @@ COMPOUND_COMPILE_REJECTS = ["acc_q := 5; undefined_name_q", "func bad_q() { retu
                             "for i := 0; i < 2; i++ { undefined_name_q }", "if true { undefined_name_q }", "[1, undefined_name_q]"]
 
 
+HOST_STMTS = ["limit = limit * 2", "limit += 1", "hostlist.append(limit)", "print(limit)", "print(hostlist)", "hq_%d := hostfn(1, limit)",
+              "limit = len(hostlist)", "hostlist = [limit]", "print(hostfn(limit))"]
+
+
+def build_repl_tool():
+    """the REPL's own evaluator (cmd/risor/repl getEvaluator), driven through a test file that exists only in a
+    build overlay: go test -c in the repository's workspace, nothing is written into /repo"""
+    import json
+    d = os.path.join(C.BUILD, "overlay")
+    os.makedirs(d, exist_ok=True)
+    C.write_if_changed(os.path.join(d, "repl_c18_test.go"), open(os.path.join(C.VERIF, "hooks", "repl_c18_test.go.txt")).read())
+    ov = {"Replace": {os.path.join(C.REPO, "cmd", "risor", "repl", "zz_verif_c18_test.go"): os.path.join(d, "repl_c18_test.go")}}
+    ovp = os.path.join(d, "overlay_repl.json")
+    C.write_if_changed(ovp, json.dumps(ov, indent=1))
+    out = os.path.join(C.BIN, "c18repl.test")
+    env = dict(os.environ, GOPROXY="off")
+    for k in ("GOFLAGS", "GOSUMDB", "GOTOOLCHAIN", "GOWORK"):
+        env.pop(k, None)      # the repository's own workspace settings (go.work selects its toolchain)
+    with C.Lock("go"):
+        r = subprocess.run(["go", "test", "-c", "-tags", "verif", "-overlay", ovp, "-o", out, "./cmd/risor/repl"], cwd=C.REPO, env=env,
+                           stdout=subprocess.PIPE, stderr=subprocess.STDOUT)
+    if r.returncode != 0:
+        return None, r.stdout.decode("utf-8", "replace")
+    return out, ""
+
+
 def hexline(pieces):
     return ",".join(p.encode("utf-8", "surrogateescape").hex() for p in pieces)
 
@@ -40,65 +66,30 @@ def parse_out(line):
     return res.split("|"), gl, tr, whole
 
 
-def run(res):
-    tier = res.tier
-    nprog = 500 if tier == "quick" else 12000
-    nsplit = 4 if tier == "quick" else 10
-    cov = res.coverage
-    exe, err = C.go_build("c18obs")
-    if not exe:
-        res.violation({"property": PROP, "kind": "harness-build-failed", "stage": "go build c18obs", "log": err[-3000:]}, nofail=True, tag="build")
-        return
-    proved = C.prove(res, PROP)
-    rng = C.Rng(res.seed)
-    cases = []     # (kind, pieces, reference pieces or None, index of inserted piece or None)
-    for i in range(nprog):
-        parts = gen.Gen(rng, budget=30).program_parts()
-        for _ in range(nsplit):
-            pieces = split_parts(rng, parts)
-            cases.append(("split", pieces, None, None))
-            k = rng.below(len(pieces) + 1)
-            which = rng.below(4)
-            if which == 0:
-                ins = rng.choice(PARSE_REJECTS)
-                cases.append(("parse-reject", pieces[:k] + [ins] + pieces[k:], pieces, k))
-            elif which == 1:
-                ins = rng.choice(LEAF_COMPILE_REJECTS)
-                cases.append(("compile-reject-leaf", pieces[:k] + [ins] + pieces[k:], pieces, k))
-            elif which == 2:
-                ins = rng.choice(COMPOUND_COMPILE_REJECTS)
-                cases.append(("compile-reject-compound", pieces[:k] + [ins] + pieces[k:], pieces, k))
-            else:
-                # a failing piece: its own statements run, then a runtime error; reference = the same piece without the error
-                body = rng.choice(["fq_%d := %d" % (i, rng.below(9)), "print(%d)" % rng.below(9), "log.append(%d)" % (90 + rng.below(9))])
-                fail = rng.choice(["1 / 0", "[1][5]", "{}[\"nokey\"]", "nil()"])
-                kk = max(k, 1)      # after `log`/`t` exist
-                cases.append(("runtime-failure", pieces[:kk] + [body + "\n" + fail] + pieces[kk:], pieces[:kk] + [body] + pieces[kk:], kk))
-    # corpus: the design witnesses
-    cases.append(("compile-reject-compound", ["x := 1", "x = 2; undefined_name", "x"], ["x := 1", "x"], 1))
-    cases.append(("stack-growth", ["1"] * 1100, None, None))
+def _only_unassigned_names(a, b):
+    """the globals listings differ only in names that the failing piece declared and never assigned (Go nil in the incremental run,
+    absent from the reference)"""
+    da = dict(x.split("=", 1) for x in a.split(";") if "=" in x)
+    db = dict(x.split("=", 1) for x in b.split(";") if "=" in x)
+    diff = [k for k in set(da) | set(db) if da.get(k) != db.get(k) and "?" not in (da.get(k), db.get(k))]
+    return bool(diff) and all(da.get(k) == "(gonil)" and k not in db for k in diff)
 
-    lines = []
-    for kind, pieces, ref, k in cases:
-        lines.append(hexline(pieces))
-        if ref is not None:
-            lines.append(hexline(ref))
-    nsh = C.NCPU
-    chunks = [lines[s::nsh] for s in range(nsh)]
 
-    def work(s):
-        return subprocess.run([exe], input=("\n".join(chunks[s]) + "\n").encode(), stdout=subprocess.PIPE).stdout.decode("utf-8", "replace").splitlines()
-    with ThreadPoolExecutor(max_workers=nsh) as ex:
-        parts_out = list(ex.map(work, range(nsh)))
-    outs = [None] * len(lines)
-    for s in range(nsh):
-        for j, l in enumerate(parts_out[s]):
-            outs[s + j * nsh] = l
+def _gl_differ(a, b):
+    """globals listings differ; a name the REPL route could not read back (`name=?`: a variable of an inner block, which is a
+    global slot but not in scope for a later piece) is not compared"""
+    da = dict(x.split("=", 1) for x in a.split(";") if "=" in x)
+    db = dict(x.split("=", 1) for x in b.split(";") if "=" in x)
+    for k in set(da) | set(db):
+        va, vb = da.get(k), db.get(k)
+        if va == "?" or vb == "?":
+            continue
+        if va != vb:
+            return True
+    return False
 
-    oracle = []
-    hist = {}
-    checked = {}
-    distinct = set()
+
+def _judge(res, route, cases, outs, oracle, hist, checked, distinct):
     pos = 0
     for kind, pieces, ref, k in cases:
         o = outs[pos]
@@ -110,7 +101,7 @@ def run(res):
         hist[kind] = hist.get(kind, 0) + 1
         distinct.add(hexline(pieces))
         if o is None or not o.startswith("INC ") or (ref is not None and (oref is None or not oref.startswith("INC "))):
-            oracle.append({"kind": "oracle-violation", "case": kind, "pieces": pieces, "impl": (o or "")[:300],
+            oracle.append({"kind": "oracle-violation", "route": route, "case": kind, "pieces": pieces, "impl": (o or "")[:300],
                            "why": "the incremental evaluation did not return normally"})
             continue
         results, gl, tr, whole = parse_out(o)
@@ -121,7 +112,7 @@ def run(res):
                 wgl, _, wtr = wrest.partition(" TRACE ")
                 if any(r.startswith("ERR") or r.startswith("REJECT") for r in results):
                     why = "a piece of a program that evaluates as a whole was rejected or failed: %s" % results
-                elif gl != wgl:
+                elif _gl_differ(gl, wgl):
                     why = "final globals differ from the whole-program run"
                 elif results[-1] != "OK " + wres:
                     why = "the last piece's value %s is not the whole program's value %s" % (results[-1], wres)
@@ -141,11 +132,15 @@ def run(res):
                     why = None
                 else:
                     ref_others = rres[:k] + rres[k + 1:]
-                    if others != ref_others or gl != rgl or tr != rtr:
+                    if others == ref_others and tr == rtr and _only_unassigned_names(gl, rgl):
+                        res.known_finding("names declared by a piece that fails at run time before assigning them stay declared, without a "
+                                          "value, for the pieces that follow (e.g. pieces `b := [1][5]`, `b`: the second is an eval error "
+                                          "\"variable has no value\" instead of the compiler's \"undefined variable\")")
+                    elif others != ref_others or _gl_differ(gl, rgl) or tr != rtr:
                         why = "a piece that failed at run time changed what followed beyond its own effects"
                     checked[kind] = checked.get(kind, 0) + 1
             else:
-                if others != rres or gl != rgl or tr != rtr:
+                if others != rres or _gl_differ(gl, rgl) or tr != rtr:
                     why = "a rejected piece had an effect on the pieces that follow (results %s vs %s; globals %s vs %s)" % (
                         others[-3:], rres[-3:], gl[-80:], rgl[-80:])
                 checked[kind] = checked.get(kind, 0) + 1
@@ -154,14 +149,134 @@ def run(res):
                 res.known_finding("a piece rejected by the compiler after it has emitted code, declared symbols or entered a function "
                                   "body is not rolled back (e.g. pieces `x := 1`, `x = 2; undefined_name`, `x` give 2)")
                 continue
-            oracle.append({"kind": "oracle-violation", "case": kind, "pieces": pieces, "reference_pieces": ref, "impl": o[:600],
+            oracle.append({"kind": "oracle-violation", "route": route, "case": kind, "pieces": pieces, "reference_pieces": ref, "impl": o[:600],
                            "reference": (oref or "")[:600], "why": why})
 
-    cov["evaluations"] = len(lines)
+
+
+def run(res):
+    tier = res.tier
+    nprog = 500 if tier == "quick" else 12000
+    nsplit = 4 if tier == "quick" else 10
+    cov = res.coverage
+    exe, err = C.go_build("c18obs")
+    if not exe:
+        res.violation({"property": PROP, "kind": "harness-build-failed", "stage": "go build c18obs", "log": err[-3000:]}, nofail=True, tag="build")
+        return
+    repl_exe, err = build_repl_tool()
+    if not repl_exe:
+        res.violation({"property": PROP, "kind": "harness-build-failed", "stage": "go test -c cmd/risor/repl with the overlay test file",
+                       "log": err[-3000:]}, nofail=True, tag="build")
+        return
+    proved = C.prove(res, PROP)
+    rng = C.Rng(res.seed)
+    cases = []     # (kind, pieces, reference pieces or None, index of inserted piece or None)
+    for i in range(nprog):
+        parts = gen.Gen(rng, budget=30).program_parts()
+        if i % 3 != 1:
+            # functions defined in one piece that read and write globals reassigned by other pieces
+            parts.insert(1 + rng.below(len(parts)), "cq_%d := %d" % (i, rng.below(5)))
+            at = max(j for j, ptxt in enumerate(parts) if ptxt.startswith("cq_")) + 1
+            body = rng.choice(["cq_%d += 1; return [limit, cq_%d]", "return cq_%d * 2 + cq_%d", "cq_%d = cq_%d + limit; return cq_%d" ])
+            body = body.replace("%d", str(i))
+            parts.insert(at, "func pq_%d() { %s }" % (i, body))
+            for j in range(2 + rng.below(4)):
+                st = rng.choice(["print(pq_%d())", "cq_%d = cq_%d * 2", "limit += 1", "print(cq_%d)", "cq_%d = pq_%d()"]).replace("%d", str(i))
+                parts.insert(at + 1 + rng.below(len(parts) - at), st)
+        if i % 2 == 0:
+            # statements over the host-provided globals (a number, a list, a builtin), reassigned and read across pieces
+            for j in range(1 + rng.below(4)):
+                st = rng.choice(HOST_STMTS)
+                if "%d" in st:
+                    st = st % (i * 10 + j)
+                parts.insert(1 + rng.below(len(parts)), st)
+        for _ in range(nsplit):
+            pieces = split_parts(rng, parts)
+            cases.append(("split", pieces, None, None))
+            k = rng.below(len(pieces) + 1)
+            which = rng.below(4)
+            if which == 0:
+                ins = rng.choice(PARSE_REJECTS)
+                cases.append(("parse-reject", pieces[:k] + [ins] + pieces[k:], pieces, k))
+            elif which == 1:
+                ins = rng.choice(LEAF_COMPILE_REJECTS)
+                cases.append(("compile-reject-leaf", pieces[:k] + [ins] + pieces[k:], pieces, k))
+            elif which == 2:
+                ins = rng.choice(COMPOUND_COMPILE_REJECTS)
+                cases.append(("compile-reject-compound", pieces[:k] + [ins] + pieces[k:], pieces, k))
+            else:
+                # a failing piece: its own statements run, then a runtime error; reference = the same piece without the error
+                body = rng.choice(["fq_%d := %d" % (i, rng.below(9)), "print(%d)" % rng.below(9), "log.append(%d)" % (90 + rng.below(9))])
+                fail = rng.choice(["1 / 0", "[1][5]", "{}[\"nokey\"]", "nil()", "rq_%d(0)" % i, "sq_%d(0)" % i])
+                if fail.startswith("rq_"):
+                    # failure through a recovered Go panic: more than 1024 frames
+                    body += "\nfunc rq_%d(n) { return rq_%d(n + 1) }" % (i, i)
+                elif fail.startswith("sq_"):
+                    # ... and through operand stack exhaustion
+                    body += "\nfunc sq_%d(n) { return [n, sq_%d(n + 1)] }" % (i, i)
+                # statements after the failing one must not run, now or later
+                tail = rng.choice(["", "", "\nprint(777)", "\nlimit = 555", "\nlog.append(778)"])
+                kk = max(k, 1)      # after `log`/`t` exist
+                cases.append(("runtime-failure", pieces[:kk] + [body + "\n" + fail + tail] + pieces[kk:], pieces[:kk] + [body] + pieces[kk:], kk))
+    # corpus: the design witnesses and the witnesses of repaired defects
+    cases.append(("split", ["x := 1; func g() { return x + 1 }", "g()", "x = 10", "g()"], None, None))
+    cases.append(("split", ["x := 1", "func g() { x = x + 1; return x }", "g()", "y := 5", "x = 10", "g()", "[x, y]"], None, None))
+    cases.append(("runtime-failure", ["a := 1", "b := [1][5]", "[a]"], ["a := 1", "0", "[a]"], 1))
+    cases.append(("split", ["b := [1][5]", "[b]", "print([b, b])"], None, None))      # must not crash the evaluator
+    cases.append(("compile-reject-compound", ["x := 1", "x = 2; undefined_name", "x"], ["x := 1", "x"], 1))
+    cases.append(("stack-growth", ["1"] * 1100, None, None))
+
+    lines = []
+    for kind, pieces, ref, k in cases:
+        lines.append(hexline(pieces))
+        if ref is not None:
+            lines.append(hexline(ref))
+    nsh = C.NCPU
+    chunks = [lines[s::nsh] for s in range(nsh)]
+    os.makedirs(C.WORK, exist_ok=True)
+    import tempfile, shutil
+    work_dir = tempfile.mkdtemp(prefix="c18-", dir=C.WORK)
+
+    def work(s):
+        return subprocess.run([exe], input=("\n".join(chunks[s]) + "\n").encode(), stdout=subprocess.PIPE).stdout.decode("utf-8", "replace").splitlines()
+
+    def work_repl(s):
+        fin, fout = os.path.join(work_dir, "in%d" % s), os.path.join(work_dir, "out%d" % s)
+        with open(fin, "w") as f:
+            f.write("\n".join(chunks[s]) + "\n")
+        env = dict(os.environ, VERIF_C18_IN=fin, VERIF_C18_OUT=fout)
+        subprocess.run([repl_exe, "-test.run", "^TestVerifC18$", "-test.timeout", "0"], env=env, stdout=subprocess.DEVNULL, stderr=subprocess.DEVNULL, cwd=work_dir)
+        try:
+            return open(fout, encoding="utf-8", errors="replace").read().splitlines()
+        except OSError:
+            return []
+    try:
+        with ThreadPoolExecutor(max_workers=nsh) as ex:
+            parts_out = list(ex.map(work, range(nsh)))
+            parts_repl = list(ex.map(work_repl, range(nsh)))
+    finally:
+        shutil.rmtree(work_dir, ignore_errors=True)
+    routes = {}
+    for name, po in (("repl", parts_repl), ("api", parts_out)):
+        outs = [None] * len(lines)
+        for s in range(nsh):
+            for j, l in enumerate(po[s]):
+                if s + j * nsh < len(outs):
+                    outs[s + j * nsh] = l
+        routes[name] = outs
+
+    oracle = []
+    hist = {}
+    checked = {}
+    distinct = set()
+    for route, outs in routes.items():
+        _judge(res, route, cases, outs, oracle, hist, checked, distinct)
+    outs = routes["repl"]
+    cov["evaluations"] = 2 * len(lines)
     cov["distinct_nontrivial"] = len(distinct)
     cov["rule"] = ("programs of the C01 generator cut into random partitions of their top-level statements and fed to ONE compiler and ONE "
-                   "VM exactly as cmd/risor/repl does, compared with the whole-program run (final globals via vm.Get, last value, print "
-                   "trace); with parser-rejected, compiler-rejected (leaf and compound) and run-time-failing pieces inserted at random "
+                   "VM - by the REPL's own evaluator (cmd/risor/repl getEvaluator, reached through an overlay test file) and by the same steps through the embedding API, with host-provided globals (a number, a list, a builtin) reassigned and read across pieces - compared with the whole-program run (final globals via vm.Get, last value, print "
+                   "trace); with parser-rejected, compiler-rejected (leaf and compound) and run-time-failing pieces (returned errors and recovered panics: frame and stack exhaustion; with statements after the failing one) inserted at random "
                    "positions, compared with the same history without the insert; plus 1100 one-expression pieces (stack growth). "
                    "Non-trivial = distinct histories.")
     cov["samples"] = [{"kind": cases[1][0], "pieces": cases[1][1]}, {"impl": outs[0][:300]}]
